@@ -193,8 +193,8 @@ func genJoin(engine, prop string, r *simrt.SplitMix) *JoinSc {
 
 		if engine == "unite2" {
 			for i := range b.Lens {
-				b.Lens[i] = pick(r, 0, 1, 1, 2, sc.JoinSize-1, sc.JoinSize, sc.JoinSize+1, 2*sc.JoinSize+1, between(r, 0, sc.JoinSize))
-				if b.Lens[i] < 0 {
+				b.Lens[i] = pick(r, 0, -1, 1, 1, 2, sc.JoinSize-1, sc.JoinSize, sc.JoinSize+1, 2*sc.JoinSize+1, between(r, 0, sc.JoinSize))
+				if b.Lens[i] < -1 {
 					b.Lens[i] = 0
 				}
 			}
@@ -359,7 +359,12 @@ func buildJoin(sc *JoinSc) (simrt.Config, func()) {
 			h.out = dsc.Output()
 			h.release = func(<-chan struct{}) bool { dsc.Release(); return true }
 			sendOne = func(id *int, n int) {
-				sl := make([]int, n)
+				var sl []int // n == -1: a nil slice, which is a legal empty input slice too
+
+				if n >= 0 {
+					sl = make([]int, n)
+				}
+
 				for i := range sl {
 					sl[i] = *id
 					*id++
@@ -1210,6 +1215,10 @@ func shrinkJoin(sc *JoinSc) []any {
 			j := j
 			if sc.Bursts[i].Lens[j] > 1 {
 				add(func(c *JoinSc) { c.Bursts[i].Lens[j]-- })
+			}
+
+			if sc.Bursts[i].Lens[j] == -1 && sc.Engine != "unite2" {
+				add(func(c *JoinSc) { c.Bursts[i].Lens[j] = 0 })
 			}
 		}
 	}
